@@ -551,8 +551,9 @@ def run_impl(case, faults=(), fault_cls='ValueError', guard=None):
     if guard is not None:
         cls = guard(world)
     templates = []
+    enc = case.get('encoding')
     for t in case['templates']:
-        templates.append(cls(t['source']))
+        templates.append(cls(t['source'], encoding=enc) if enc else cls(t['source']))
     for i, (t, tj) in enumerate(zip(templates, case['templates'])):
         if 'ckw' in tj:
             # defaults through the constructor: template(source, mapping, **keywords)
